@@ -101,6 +101,47 @@ theorem ae_commit_rule (cf : Cfg) (d : Durable) (v : Vol) (a : AEReq)
           simp only [mkRes]
           exact hc
 
+/-- **the commit rule, exactly** (the form of the cluster model's `handleAE`): after a successful
+    answer the commit index is `max old (min LeaderCommitIndex lastCovered)` -/
+theorem ae_commit_exact (cf : Cfg) (d : Durable) (v : Vol) (a : AEReq)
+    (h : isSuccess (aePlan cf d v a).final.resp = true) :
+    (aePlan cf d v a).final.vol.commit = max v.commit (min a.commit (aeLastCovered a)) := by
+  unfold aePlan at h ⊢
+  by_cases hst : a.term < v.term
+  · rw [if_pos hst] at h; simp [aeFail, mkRes, isSuccess] at h
+  · rw [if_neg hst] at h ⊢
+    simp only [] at h ⊢
+    cases hprev : aePrevOk d (aeVol2 v a) a with
+    | none => rw [hprev] at h; simp [aeFail, mkRes, isSuccess] at h
+    | some b =>
+      cases b with
+      | false => rw [hprev] at h; simp [aeFail, mkRes, isSuccess] at h
+      | true =>
+        rw [hprev] at h
+        simp only [] at h ⊢
+        obtain ⟨steps, dlog, v3, hform, hc⟩ := aeBody_success_form cf d v a _ _ _ h
+        rw [hform] at h ⊢
+        rw [aeVol2_commit] at hc
+        unfold aeFinish at h ⊢
+        simp only [] at h ⊢
+        by_cases hcond : a.commit > 0 ∧ a.commit > v3.commit ∧ min a.commit (aeLastCovered a) > v3.commit
+        · rw [if_pos hcond] at h ⊢
+          cases hp : processLogs dlog (aeCommitVol v3 (min a.commit (aeLastCovered a))).applied (min a.commit (aeLastCovered a)) with
+          | none => rw [hp] at h; simp [mkRes, isSuccess] at h
+          | some calls =>
+            simp only []
+            have hcm : (aeApplied (aeCommitVol v3 (min a.commit (aeLastCovered a))) (min a.commit (aeLastCovered a))).commit
+                = min a.commit (aeLastCovered a) := by
+              unfold aeApplied aeCommitVol
+              simp only []
+              split <;> (split <;> rfl)
+            rw [hcm]
+            omega
+        · rw [if_neg hcond]
+          simp only [mkRes]
+          rw [hc]
+          omega
+
 /-- non-vacuity: the F8 history — a heartbeat-like request `prev = (1, t1)`, no entries,
     `LeaderCommitIndex = 2`, against a follower that holds a stale entry 2: commit stops at 1 -/
 private def exD : Durable :=
